@@ -65,6 +65,9 @@ impl InstructionGenerator {
         if let Some(e) = else_block {
             self.label(labels::case_else(), pos);
             self.visit(e);
+            // to be able to resume after an error at the last statement of the block
+            // (RESUME NEXT must still go through END SELECT)
+            self.mark_statement_address();
         }
     }
 
